@@ -172,6 +172,20 @@ def drive(fin, ninf, zeros, exprs, sid, *, views=(), self_ref=None):
                 elems = [dict(idx=[], masked=1) if got is zero else dict(idx=list(got.idx), masked=0)]
                 ses.emit("retx", expr=recs, scalar=1, shape=[], elems=elems, pending=ses.pending_cells())
         for recs, obj, probes in views:
+            if probes == "invalid":
+                # numpy refuses this all-integer finite index (out of range): the library may refuse now or when an
+                # element is read through the view, but must never hand out an element
+                mark = len(ses.events)
+                try:
+                    view = s[obj]
+                    v = view[tuple(0 for _ in range(ninf))]
+                except BaseException as e:  # noqa: BLE001
+                    del ses.events[mark:]
+                    ses.emit("viewrefuse", exc=type(e).__name__, expr=recs)
+                    continue
+                del ses.events[mark:]
+                ses.emit("viewvalue", expr=recs)
+                continue
             try:
                 view = s[obj]
             except BaseException as e:  # noqa: BLE001
@@ -319,11 +333,18 @@ def run(pid, tier, seed, replay=None):
                 try:
                     shp = np.empty(fin)[obj].shape
                 except Exception:  # noqa: BLE001
-                    continue  # numpy itself refuses: a view of nothing is outside the property
+                    if all(rec["k"] == "int" for rec in recs):
+                        views.append((recs, obj, "invalid"))
+                    continue  # (other expressions numpy refuses: a view of nothing is outside the property)
                 if all(x > 0 for x in shp):
                     for _ in range(4):
                         probes.append(([rng.randrange(x) for x in shp], [rng.randrange(3) for _ in range(ninf)]))
                 views.append((recs, obj, probes))
+            # fixed stratum: all-integer finite indices with ONE component out of range (n or -(n+1), and far out)
+            for bad_pos in range(len(fin)):
+                for bad in (fin[bad_pos], -(fin[bad_pos] + 1), fin[bad_pos] + rng.choice([1, 3])):
+                    combo = [c_int(bad) if q == bad_pos else c_int(rng.randrange(-n_, n_)) for q, n_ in enumerate(fin)]
+                    views.append(([rec for rec, _ in combo], tuple(o for _, o in combo), "invalid"))
             add("views", fin, ninf, zeros, [], views=views)
         # ---- self-referential definitions ------------------------------------------
         def cyc_same(index):
